@@ -15,7 +15,7 @@ def search(ctx):
 
 def run(ctx):
     ctx.prove()
-    st = ctx.correspond("h_wal", "Wal", nontrivial=r"^(append|all|purge|open|crashappend|codec) ")
+    st = ctx.correspond("h_wal", "Wal", nontrivial=r"^(append|all|purge|open|crashappend|codec|walentry|refuse) ")
     hist = st.get("hist", {})
     series, full, maxfull = 0, 0, 0
     try:
